@@ -646,6 +646,9 @@ class IteratorQueue(IterableQueue[_ValueT]):
           result.append(self.get_nowait())
           logging.debug('chainable: %s', 'dequeued one')
         except (queue.Empty, asyncio.QueueEmpty) as e:
+          if e is self._exception:
+            # The recorded enqueue failure, not a momentarily empty buffer.
+            raise e
           if (not block and result) or (
               block and max_batch_size and len(result) == max_batch_size
           ):
@@ -689,6 +692,9 @@ class IteratorQueue(IterableQueue[_ValueT]):
           )
           return value
         except (queue.Empty, asyncio.QueueEmpty) as e:
+          if e is self._exception:
+            # The recorded enqueue failure, not a momentarily empty buffer.
+            raise e
           logging.debug(
               'chainable: %s', f'"{self.name}" dequeue empty, waiting'
           )
